@@ -128,7 +128,7 @@ def body_solve(S, spec):
         for s_, B in a.blocks.items():
             B = np.asarray(B, dtype=object)
             det = B[0, 0] if B.shape == (1, 1) else B[0, 0] * B[1, 1] - B[0, 1] * B[1, 0]
-            zt.ctl().assume(zt.parts(det)[0] != 0, "solve: blocks of A are invertible")
+            zt.ctl().assume(zt.parts(det)[0] != 0, "input: blocks of A are invertible (solve)")
     x = sr.linalg.solve(a, b)
     Da, La = orc.dense_of(a, dtype=S.dtype())
     Db, Lb = orc.dense_of(b, dtype=S.dtype())
